@@ -623,3 +623,56 @@ def P2(vc):
     if k == 1:
         return _p2_clean(vc)
     return _p2_keepalive(vc)
+
+
+# =============================================================================================== P1t (bounded)
+from pyvc.bounded import bounded as _bounded
+
+
+@_bounded('P1t', targets=['kopf._core.engines.peering.Peer.__init__'], props=['C13'],
+          clauses=['lastseen_is_the_instant_written', 'offsetless_timestamps_are_utc', 'deadline_from_that_instant'],
+          universe='lastseen in {ISO-8601 with +00:00, with Z, with +09:00, with -08:00, WITHOUT an offset (what older kopf wrote: '
+                   'utcnow().isoformat()), with and without microseconds} x the reading host\'s local timezone in {UTC, UTC+9, UTC-8} '
+                   '(TZ + time.tzset) x lifetime in {60, 1}; the real Peer class, natively (P1 takes the parser by contract)')
+def P1t(b):
+    """
+    BOUNDED stand-in for the one thing P1 trusts: how Peer reads `lastseen` from a peering record.  Peers run on different hosts;
+    a record is an instant, not a local time:
+      lastseen_is_the_instant_written   a timestamp with an explicit offset denotes that instant, whatever zone the reader lives in;
+      offsetless_timestamps_are_utc     a timestamp WITHOUT an offset is UTC (docs/peering.rst records are written in UTC; older
+                                        releases wrote utcnow().isoformat()) -- NOT the reader's local time: read as local time on a
+                                        host east of UTC a live higher-priority peer looks hours dead (no pause, its record cleaned
+                                        away: two active operators), west of UTC a dead one looks alive (the survivor never resumes);
+      deadline_from_that_instant        deadline == lastseen + lifetime, and is_dead compares it with now in UTC.
+    """
+    import datetime, os, time
+    from kopf._core.engines import peering
+    UTC = datetime.timezone.utc
+    base = datetime.datetime(2024, 3, 5, 12, 30, 45, tzinfo=UTC)
+    texts = []
+    for micro in (0, 123456):
+        t = base.replace(microsecond=micro)
+        naive = t.replace(tzinfo=None).isoformat()
+        texts += [(t.isoformat(), t, 'explicit'), (naive + 'Z', t, 'explicit'), (naive, t, 'offsetless'),
+                  (t.astimezone(datetime.timezone(datetime.timedelta(hours=9))).isoformat(), t, 'explicit'),
+                  (t.astimezone(datetime.timezone(datetime.timedelta(hours=-8))).isoformat(), t, 'explicit')]
+    saved = os.environ.get('TZ')
+    try:
+        for tz in ('UTC', 'JST-9', 'PST8'):
+            os.environ['TZ'] = tz
+            time.tzset()
+            for text, instant, kind in texts:
+                for lifetime in (60, 1):
+                    b.case(key=(tz, text, lifetime))
+                    peer = peering.Peer(identity=peering.Identity('peer'), priority=100, lifetime=lifetime, lastseen=text)
+                    seen = peer.lastseen
+                    ok = seen.tzinfo is not None and seen == instant
+                    w = dict(TZ=tz, lastseen=text, parsed=str(seen), expected=str(instant))
+                    b.check('lastseen_is_the_instant_written' if kind == 'explicit' else 'offsetless_timestamps_are_utc', ok, w)
+                    b.check('deadline_from_that_instant', peer.deadline == seen + datetime.timedelta(seconds=lifetime), w)
+    finally:
+        if saved is None:
+            os.environ.pop('TZ', None)
+        else:
+            os.environ['TZ'] = saved
+        time.tzset()
